@@ -113,7 +113,7 @@ type SplitCase struct {
 	V          GenVersion `json:"v"`
 	Schema     string     `json:"schema"`
 	PackageLeg bool       `json:"package_leg,omitempty"` // also build the five packages when the version is used verbatim
-	Explicit struct {
+	Explicit   struct {
 		Pre  string `json:"pre"`
 		Meta string `json:"meta"`
 	} `json:"explicit"`
